@@ -339,6 +339,35 @@ def c06_grad(d):
   bits, integer, f = int(rep["bits"]), int(rep["integer"]), float(F(rep["f"]))
   x0 = float(f32(F(w.get("x", 0))))
   C = getattr(quantizers, cls)
+  if str(rep.get("alpha", "")).startswith("auto") and cls in ("quantized_bits", "quantized_linear"):
+    # data-dependent scale: whole tensors, a non-uniform upstream gradient (so that a gradient leaking through the
+    # group reduction does not cancel), low bit widths; expected = the constant surrogate slope on every element
+    ste = bool(rep.get("use_ste", True))
+    exp = 1.0 if (ste or cls == "quantized_linear") else 1 - f
+    worst, all_zero = None, False
+    rng = np.random.RandomState(7)
+    for b in sorted({max(2, min(bits, 8)), 3, 4}):
+      for trial in range(4):
+        kw = {"alpha": rep["alpha"], "qnoise_factor": f}
+        if cls == "quantized_bits":
+          kw["use_ste"] = ste
+        q = C(b, min(integer, b - 1), 1, 1, **kw)
+        xv = rng.uniform(-3, 3, size=tuple(rep.get("shape", [3, 4]))).astype(np.float32)
+        up = rng.uniform(0.5, 1.5, size=xv.shape).astype(np.float32)
+        x = tf.Variable(xv)
+        with tf.GradientTape() as tape:
+          y = tf.reduce_sum(q(x) * up)
+        g = tape.gradient(y, x)
+        gv = np.zeros_like(xv) if g is None else g.numpy()
+        dev = float(np.max(np.abs(gv - exp * up)))
+        all_zero = all_zero or not np.any(gv)
+        if worst is None or dev > worst[0]:
+          worst = (dev, b, trial)
+    obs = {"max_deviation_from_surrogate": worst[0], "bits": worst[1], "expected_slope": exp}
+    if d["clause"] == "nonzero":
+      return {"status": "confirmed" if all_zero else "refuted", "observed": obs, "expected": "a gradient that is not identically zero"}
+    return {"status": "confirmed" if worst[0] > 1e-4 else "refuted", "observed": obs,
+            "expected": "gradient = %g * upstream on every element (the scale carries no gradient)" % exp}
   if cls == "quantized_bits":
     q = C(bits, integer, qnoise_factor=f, use_ste=(variant == "ste"))
     exp = 1.0 if variant == "ste" else 1 - f
@@ -624,3 +653,72 @@ def c08_po2(d):
       return {"status": "confirmed", "observed": {"input_is_code": v, "outputs_seen": sorted(seen)},
               "expected": "codes are returned unchanged"}
   return {"status": "refuted", "observed": {"probes": probes, "draws_per_probe": 40}}
+
+
+@replayer("c08_sr_po2")
+def c08_sr_po2(d):
+  """stochastic_round_po2 called directly: exact powers of two must come back unchanged in every draw; any other
+  input must come back as one of the two adjacent exponents."""
+  import tensorflow as tf
+  from qkeras import quantizers
+  probes = [2.0 ** k for k in range(-4, 4)] + [3.0, 0.3, 5.5, 0.07]
+  for v in probes:
+    seen = set()
+    for _ in range(40):
+      seen.add(float(np.array(quantizers.stochastic_round_po2(tf.constant([v], dtype=tf.float32)))[0]))
+    lg = math.log2(v)
+    lo, hi = math.floor(lg), math.ceil(lg)
+    if not seen <= {float(lo), float(hi)}:
+      return {"status": "confirmed", "observed": {"input": v, "exponents_seen": sorted(seen)},
+              "expected": "exponent in {%d, %d}" % (lo, hi)}
+  return {"status": "refuted", "observed": {"probes": probes, "draws_per_probe": 40}}
+
+
+@replayer("c07_collect")
+def c07_collect(d):
+  """QNoiseScheduler.get_quantizers / on_train_begin on holder objects whose quantizers carry the knob with the values
+  1.0, 0.0, the witness' f and 0.25: every one of them must be collected and reset."""
+  from qkeras import callbacks
+  w = d["witness"] or {}
+  f = float(F(w.get("f", 0)))
+
+  class StubQ(object):
+    def __init__(self, v):
+      self.qnoise_factor = v
+      self.updates = []
+      self.use_ste = True
+      self.use_variables = False
+      self.built = False
+    def update_qnoise_factor(self, v):
+      self.updates.append(float(v))
+      self.qnoise_factor = v
+    def build(self, *a, **k):
+      self.built = True
+
+  class Plain(object):
+    pass
+
+  class Holder(object):
+    pass
+  qs = [StubQ(v) for v in (1.0, 0.0, f, 0.25)]
+  l0, l1, l2 = Holder(), Holder(), Holder()
+  l0.quantizers = [qs[0], Plain(), None, qs[1]]
+  l1.quantizer = qs[2]
+  l2.quantizers = []
+  l2.quantizer = qs[3]
+  model = Holder()
+  model.layers = [l0, Holder(), l1, l2]
+  sch = callbacks.QNoiseScheduler(int(w.get("start", 0)), int(w.get("finish", 1)))
+  got = sch.get_quantizers(model)
+  missing = [i for i, q in enumerate(qs) if not any(q is g for g in got)]
+  try:
+    sch.set_model(model)
+  except Exception:  # pylint: disable=broad-except
+    sch._model = model
+  sch.on_train_begin()
+  not_reset = [i for i, q in enumerate(qs) if q.updates != [0.0]]
+  bad = bool(missing or not_reset or len(got) != 4)
+  return {"status": "confirmed" if bad else "refuted",
+          "observed": {"factors": [1.0, 0.0, f, 0.25], "not_collected": missing, "not_reset_by_on_train_begin": not_reset,
+                       "collected": len(got)},
+          "expected": "all four quantizers with the knob are collected and reset to 0.0"}
